@@ -856,6 +856,17 @@ def observe_typedlist(base, ft):
                 continue
             if not ok or not res or not all(type(x) is cls for x in res):
                 raise Unsupported("typedlist given %s: %r" % (what, res if ok else type(res).__name__))
+        # mixed lists: an element that is typed already does not excuse the others
+        for what, lst, values, cls in (("a typed element followed by raw ones", u16, [ft.uint16(3), 4, 6], ft.uint16),
+                                       ("raw elements followed by a typed one", u16, [4, 6, ft.uint16(3)], ft.uint16),
+                                       ("a typed text followed by bytes", s_l, [ft.string("a"), b"x", None], ft.string),
+                                       ("bytes followed by a typed text", s_l, [b"x", ft.string("a")], ft.string)):
+            ok, res = _try(lst, values)
+            if not ok or len(res) != len(values) or not all(type(x) is cls for x in res):
+                raise Unsupported("typedlist given %s: %r" % (what, res if ok else type(res).__name__))
+        for values in ([ft.uint16(3), 70000], [70000, ft.uint16(3)], [ft.uint16(3), "5"], [ft.uint16(3), 4, -1]):
+            if _try(u16, values)[0]:
+                raise Unsupported("uint16[] accepts %r" % (values,))
         if _try(u16, [70000])[0] or _try(u16, v_l([70000]))[0]:
             raise Unsupported("uint16[] accepts 70000")
     falsy = {_try(u16, v)[0] for v in (0, "", False, 0.0)}
